@@ -547,7 +547,7 @@ Section Blocks.
     match p_sortQuery p with
     | NoSort => u
     | SortKeys => sp_update c (fst (ensure_sp c u)) (sp_sort (snd (ensure_sp c u)))
-    | SortParameter => sp_update c (fst (ensure_sp c u)) (sp_sort_abs (snd (ensure_sp c u)))
+    | _ => sp_update c (fst (ensure_sp c u)) (sp_sort_abs (snd (ensure_sp c u)))     (* the sort on name ++ value *)
     end.
 
   Definition tail_block (u : url) : option url :=
@@ -572,7 +572,7 @@ Section Blocks.
   Hypothesis A_path : forall u s u', P0 u -> SetPathname idna_raw c u s = Some u' -> P0 u'.
   Hypothesis A_02 : forall u, P0 u -> P2 u.
   Hypothesis A_21 : forall u, P2 u -> P1 u.
-  (* the write-through of the parameter list happens only under repeated decoding or sorting *)
+  (* the write-through of the list of pairs happens only under repeated decoding or sorting *)
   Hypothesis A_reenc : forall u l, p_repeated p = true \/ p_sortQuery p <> NoSort ->
     P1 u -> P2 (sp_update c (fst (ensure_sp c u)) l).
   Hypothesis A_search : forall u s u', s <> [] -> P1 u -> SetSearch idna_raw c u s = Some u' -> P1 u'.
@@ -695,7 +695,7 @@ Print Assumptions Canonicalize_scheme.
 (* ================================================================== *)
 
 (* SearchParams.update serializes with the ordinary query set, whatever the scheme (MachineInv.
-   sp_update_Inv_refuted), and both the sort and the re-encoding of the parameters end with it.
+   sp_update_Inv_refuted), and both the sort and the re-encoding of the names and values end with it.
    What survives of [Inv] is [InvW]: every clause except the one on the query, and for the query
    the same clause with the ordinary query set in place of the special-query set. *)
 Definition InvNQ (c : cfg) (u : url) : Prop := Inv c (set_query u None).
@@ -911,7 +911,7 @@ Section G2.
     unfold IsSpecialScheme in *. rewrite (Canonicalize_scheme idna_raw p u u' H). exact Hs.
   Qed.
 
-  (* G2, full invariant: profiles that neither sort nor re-encode the parameters *)
+  (* G2, full invariant: profiles that neither sort nor re-encode the names and values *)
   Theorem Canonicalize_Inv_nosp_p : p_sortQuery p = NoSort -> p_repeated p = false ->
     forall u u', Inv c u -> Canonicalize idna_raw p u = Some u' -> Inv c u'.
   Proof.
@@ -1184,7 +1184,7 @@ Theorem ProfileParse_Inv_refuted_sort : breaks_clause10 prof_WhatWgSortQuery.
 Proof. break10. Qed.
 Print Assumptions ProfileParse_Inv_refuted_sort.
 
-(* sorting by parameter *)
+(* sorting by name ++ value *)
 Theorem ProfileParse_Inv_refuted_sort_abs : breaks_clause10 copt_WithSortQuery2.
 Proof. break10. Qed.
 
